@@ -7,12 +7,12 @@ from ovld import OvldBase, OvldMC, extend_super, call_next, recurse  # noqa
 from ovld import ovld as ovld_deco  # noqa
 
 CLAIM = dict(
-    text="Coq theorems about the executable model of the class-body namespace (Model/ClassDict.v: ovld_cls_dict.__setitem__, OvldMC.__prepare__, extend_super, to_ovld, the name lookup of @ovld) on top of the graph model: same-named definitions of one body end up in one function whose table is the body's registrations in order (with the same-signature push-down, stated as a stack rule); a body that starts with an extend_super definition yields the bases' inherited tables in base order overlaid by the body's definitions; executing a class statement never touches a pre-existing function (every old node literally unchanged, hence every old observable). Refuted and recorded: a plain definition followed by an extend_super one crashes the class statement (KF-41); an extend_super mark on a later definition is silently ignored (KF-42). Correspondence on every run: random class hierarchies (depth <= 4, several bases, plain mixin classes, OvldBase and metaclass roots) with plain / @ovld / @extend_super definitions, every class instantiated and every method probed on every signature after every statement (scratch replays), self passed through, call_next and recurse on the bound method.",
+    text="Coq theorems about the executable model of the class-body namespace (Model/ClassDict.v: ovld_cls_dict.__setitem__, OvldMC.__prepare__, extend_super, to_ovld, the name lookup of @ovld) on top of the graph model: same-named definitions of one body end up in one function whose table is the body's registrations in order (with the same-signature push-down, stated as a stack rule); a body that starts with an extend_super definition yields the bases' inherited tables in base order overlaid by the body's definitions; executing a class statement never touches a pre-existing function (every old node literally unchanged, hence every old observable). A plain definition followed by an extend_super one (a crash before the repair of KF-41) now provably yields one function holding both; refuted and recorded: an extend_super mark on a later definition is silently ignored (KF-42). Correspondence on every run: random class hierarchies (depth <= 4, several bases, plain mixin classes, OvldBase and metaclass roots) with plain / @ovld / @extend_super definitions, every class instantiated and every method probed on every signature after every statement (scratch replays), self passed through, call_next and recurse on the bound method.",
     note="Trusted: as C16, plus CPython's class machinery (MRO lookup is read off the implementation and passed to the model: for each base, which class owns the name). self-threading through generated entry points and rewritten calls is observed in the correspondence (tags of the instance come back through call_next / recurse), its proof belongs to C03/C09.",
     technique="Coq proof over the ClassDict/Graph model + differential correspondence with scratch replays", design="6 C17")
 
 THEOREMS = ["C17_reachable_inv", "C17_pushdown_stack", "C17_merge", "C17_merge_explicit_error", "C17_extend_partial",
-            "C17_no_leak", "C17_no_leak_plain", "C17_crash_refuted", "C17_late_mark_refuted"]
+            "C17_no_leak", "C17_no_leak_plain", "C17_plain_then_mark", "C17_late_mark_refuted"]
 ASSUMPTIONS = [
     "attribute lookup on the bases (getattr(base, name)) is CPython's; the harness reads the owning class off the real MRO and passes it to the model",
     "dispatch over a table is not modelled (single-inheritance probe classes; the expected call_next chain is read off the table by specificity then tiebreak)",
@@ -417,9 +417,7 @@ def check_world(ctx, stmts, stats=None, report=True):
             kf42 = [bool(fl[1]) for fl in m_flags] if st["mc"] else [False] * len(NAMES)
             if sc != 0:
                 spec.append(None)
-                if sc == 1 and kf41:
-                    known("KF-41", k)
-                elif sc == 2 and fail_exp:
+                if sc == 2 and fail_exp:
                     pass    # documented explicit error: @ovld on a name bound to a plain function
                 elif sc == 2 and not st["mc"]:
                     pass
